@@ -119,7 +119,11 @@ def decide(cell, by_n, which, prop):
         b4, se4 = float(b.mean()), float(b.std(ddof=1) / math.sqrt(len(b)))
         table[name] = dict(bias_N=round(bN, 4), se_N=round(seN, 4), bias_4N=round(b4, 4), se_4N=round(se4, 4))
         delta = DELTA[kind_of(name)]
-        c1 = abs(b4) - delta > Z * se4
+        # the standard errors are estimated from R replicates: use the Student-t quantile that corresponds to z = 6
+        from scipy import stats as _st
+
+        z1 = float(_st.t.isf(_st.norm.sf(Z), max(len(b) - 1, 2)))
+        c1 = abs(b4) - delta > z1 * se4
         # clause 2 separates a persistent bias from a legitimate O(1/N) one (for which |b4|-0.6|bN| is negative whatever the noise level);
         # the family-wise false-alarm control is clause 1 at z=6, so clause 2 can use z=3 and keep twice the power
         c2 = abs(b4) - 0.6 * abs(bN) > 3.0 * math.sqrt(se4 ** 2 + 0.36 * seN ** 2)
